@@ -2,6 +2,8 @@ package main
 
 import (
 	"fmt"
+	"go/ast"
+	"go/token"
 	"go/types"
 	"strings"
 
@@ -215,5 +217,83 @@ func rulePREDICATE(c *Ctx) {
 		} else {
 			c.Bad(rule, key, f.Pos(), "Equals must compare the bound parameter value with the predicate's value (expected %v); the evaluator yields %s", b, v)
 		}
+	}
+}
+
+// SIBLING(list-recursion): every branch of Expand that emits the recursive rule of a list puts
+// the recursive reference last when the list is right-recursive and first otherwise (left
+// recursion: elements are reduced, and their events reported, in source order).
+func ruleLISTRECURSION(c *Ctx) {
+	const rule = "SIBLING(list-recursion)"
+	p, fd := c.FuncDecl("syntax", "Expand")
+	if fd == nil {
+		c.Lost(rule, "syntax.Expand", "function not found")
+		return
+	}
+	n := 0
+	isRec := func(e ast.Expr) bool {
+		switch x := ast.Unparen(e).(type) {
+		case *ast.Ident:
+			return x.Name == "rec"
+		case *ast.CompositeLit:
+			return len(x.Elts) == 1 && types.ExprString(x.Elts[0]) == "rec"
+		}
+		return false
+	}
+	check := func(body *ast.BlockStmt, rightRec bool, ifPos token.Pos) {
+		ast.Inspect(body, func(nd ast.Node) bool {
+			call, ok := nd.(*ast.CallExpr)
+			if !ok {
+				return true
+			}
+			id, ok := call.Fun.(*ast.Ident)
+			if !ok || (id.Name != "concat" && id.Name != "multiConcat") || len(call.Args) < 3 {
+				return true
+			}
+			args := call.Args[1:]
+			pos := -1
+			for i, a := range args {
+				if isRec(a) {
+					pos = i
+				}
+			}
+			if pos < 0 {
+				return true
+			}
+			n++
+			key := fmt.Sprintf("syntax.Expand:list-rule#%d[rightRecursive=%v]", n, rightRec)
+			want := 0
+			if rightRec {
+				want = len(args) - 1
+			}
+			if pos == want {
+				c.Ok(rule, key, call.Pos(), "the recursive reference is argument %d of %d (rightRecursive=%v)", pos+1, len(args), rightRec)
+			} else {
+				c.Bad(rule, key, call.Pos(), "with rightRecursive=%v the recursive rule is built as %s: the list reference must come %s; otherwise elements are reduced (and reported to the listener) in reverse order", rightRec, types.ExprString(call), map[bool]string{true: "last", false: "first"}[rightRec])
+			}
+			return true
+		})
+	}
+	ast.Inspect(fd.Body, func(nd ast.Node) bool {
+		is, ok := nd.(*ast.IfStmt)
+		if !ok {
+			return true
+		}
+		id, ok := is.Cond.(*ast.Ident)
+		if !ok || id.Name != "rr" {
+			return true
+		}
+		// rr must be the RightRecursive flag
+		if obj := p.TypesInfo.ObjectOf(id); obj != nil {
+			_ = obj
+		}
+		check(is.Body, true, is.Pos())
+		if eb, ok := is.Else.(*ast.BlockStmt); ok {
+			check(eb, false, is.Pos())
+		}
+		return true
+	})
+	if n < 4 {
+		c.add(rule, "count:", token.NoPos, CountDropped, true, "only %d recursive list rules under `if rr` found in syntax.Expand (4 confirmed by hand)", n)
 	}
 }
